@@ -283,6 +283,11 @@ inline bool exec(Env& e, const Op& op) {
       e.pushM(Manifold::Extrude(x.ToPolygons(), .3 + r, q % 4, (q % 3 == 0) ? 0.0 : 10.0 + q % 80, vec2(top[mode])));
     } else if (mode == 3) {
       e.pushM(Manifold::Extrude(x.ToPolygons(), .3 + r, q % 3, 0.0, vec2(q % 2 ? 0.0 : 1.0, q % 2 ? 1.0 : 0.0)));  // wedge: one axis collapses
+    } else if (mode == 4 && A(0) % 5 == 4) {
+      // a contour with several consecutive vertices on the axis
+      Polygons raw = {{{0, 0}, {r, 0}, {r, 2 * r}, {0, 2 * r}, {0, 1.5 * r}, {0, r}, {0, .5 * r}}};
+      if (q % 2) raw[0].resize(5);
+      e.pushM(Manifold::Revolve(raw, 3 + q % 20, q % 3 ? 360.0 : 30.0 + q % 300));
     } else if (mode == 4) {
       e.pushM(Manifold::Revolve(x.Translate(vec2((q % 3) * r, 0)).ToPolygons(), 3 + q % 20, q % 2 ? 360.0 : 30.0 + q % 300));
     } else {
